@@ -39,7 +39,11 @@ class HostnameTrieSet(object):
         self.__trie.set_and_prune_if_shorter(prefix, True)
 
     def match(self, url):
-        url = safe_urlsplit(url)
+        # NOTE: a url that cannot be parsed belongs to no hostname
+        try:
+            url = safe_urlsplit(url)
+        except ValueError:
+            return False
 
         if not url.hostname:
             return False
